@@ -84,12 +84,35 @@ def run(case):
                 stream.write(text[len(text) // 2:])
             eventmgr.yaml.dump = broken_dump
         raised = None
+        # what a reader (or a crash) sees at the moment a file is renamed into the cache: the source of every
+        # os.replace is read at that instant (a buffered, unflushed temporary file shows up as a short read)
+        real_replace = os.replace
+        at_rename = {}
+
+        def spy_replace(src, dst, **kw):
+            try:
+                with open(src) as f:
+                    at_rename[os.path.basename(dst)] = f.read()
+            except OSError:
+                pass
+            return real_replace(src, dst, **kw)
+        os.replace = spy_replace
         try:
             ev._synchronize(zk, list(case['expected']), check_existing=case['check_existing'])
         except Exception as ex:     # noqa
             raised = ex
         finally:
             eventmgr.yaml.dump = real_dump
+            os.replace = real_replace
+        for n, text in at_rename.items():
+            if n in case['expected'] and n in case['manifests'] and n in case['placements']:
+                try:
+                    good = pyyaml.safe_load(text) == expected_manifest(case, n)
+                except Exception:       # noqa
+                    good = False
+                if not good:
+                    errs.append('%s: at the moment of the rename the file holds %r (partial manifest visible to a '
+                                'reader / after a crash)' % (n, text[:60]))
         after = {n: open(os.path.join(cache, n)).read() for n in os.listdir(cache)}
         if raised is not None and fail_app is None:
             errs.append('synchronisation raised %r' % (raised,))
@@ -137,7 +160,8 @@ def rand_case(rng):
     manifests = {}
     for a in apps:
         if rng.random() < 0.85:
-            placements[a] = (rng.choice([None, {'identity': 3}, {'expires': 123.5, 'identity_group': 'g'},
+            placements[a] = (rng.choice([None, {'identity': 3}, {'identity': 0, 'identity_group': 'g'}, {'expires': 0},
+                                         {'expires': 123.5, 'identity_group': 'g'},
                                          {'memory': 'overridden'}]), rng.random() < 0.5)
         if rng.random() < 0.85:
             manifests[a] = {'memory': '100M', 'cpu': '10%', 'name': a}
@@ -160,7 +184,9 @@ def main(argv):
     rng = random.Random(int(os.environ.get('VERIF_SEED', '0')))
     t0 = time.time()
     n = 0
-    while time.time() - t0 < float(os.environ.get('VERIF_REPLAY_BUDGET', '30')):
+    n_max = int(argv[1]) if argv[0] == '--bounded' else 10 ** 9
+    budget = 1e9 if argv[0] == '--bounded' else float(os.environ.get('VERIF_REPLAY_BUDGET', '30'))
+    while n < n_max and time.time() - t0 < budget:
         n += 1
         case = rand_case(rng)
         errs = run(case)
